@@ -399,3 +399,12 @@ func init() {
 		fmt.Println(string(b))
 	}
 }
+
+func init() {
+	debugHooks["call-baseline"] = func(p *ir.Program) {
+		c := &Ctx{P: p, R: report.New("DBG", "quick")}
+		b, _ := json.MarshalIndent(c.callSigs(callPkgs), "", " ")
+		fmt.Println("BASELINE-BEGIN")
+		fmt.Println(string(b))
+	}
+}
